@@ -84,7 +84,8 @@ pub fn frame_ok(r: &mut Rng) -> FrameSpec {
 
 /// A frame that the reference codec will reject (never oversize).
 pub fn frame_rejected(r: &mut Rng) -> FrameSpec {
-    match r.below(9) {
+    match r.below(10) {
+        9 => FrameSpec::Echo(*r.pick(&[0u16, 0, 0, 1, 2, 7])),
         0 => {
             let n = r.range(0, 24) as usize;
             FrameSpec::Raw(r.bytes(n))
@@ -467,7 +468,8 @@ fn enum_letter(letter: u64, cfg: &WorldCfg) -> Op {
             if cfg.frontend == Frontend::AsyncC {
                 t.gap1.push(data(1, false, false));
             } else {
-                t.rx2.push(FrameSpec::Raw(vec![0x60, 1, 2, 3, 4, 0, 9, 0, 1, 0xAA, 0xBB, 0xCC, 0xDD]));
+                // the uplink just sent comes back (repeater, echo, recorded and re-sent)
+                t.rx2.push(FrameSpec::Echo(0));
             }
             send(false, t)
         }
